@@ -67,7 +67,7 @@ def gen_obj(rng, ascii_only):
     clean = lambda s: s.replace(L, "").replace(R, "").replace("\x00", "") if isinstance(s, str) else s
     for k in ("bumped_branch", "bumped_commit_hash", "last_commit_hash", "last_branch"):
         v[k] = clean(v[k])
-    v["custom"] = {"s1": clean(objgen.rand_text(rng, ascii_only)), "s2": rng.choice(["Feature/API-v2", "0051", "a..b", "", "x" * 40, "UPPER_lower-007"]),
+    v["custom"] = {"s1": clean(objgen.rand_text(rng, ascii_only)), "s2": rng.choice(["Feature/API-v2", "0051", "a..b", "", "x" * 40, "UPPER_lower-007", " ", "   ", "\t", " a ", "0", "false", "x" * 200]),
                    "n": rng.choice([0, 7, 42, 2 ** 31]), "flag": rng.choice([True, False]), "meta": {"k": rng.choice(["v", "1.2", ""])}}
     return schema, v
 
